@@ -500,3 +500,13 @@ CHECKS["C19"]["prebuild"] = BIN_PREBUILD
 CHECKS["C13"]["jobs"].append(J("pamencoder", VPAM, "TestC13PamEncoder", {"shards": 1, "timeout": 600}, rapid=False))
 CHECKS["C13"]["prebuild"] = PAM_PREBUILD
 CHECKS["C13"]["required_classes"] = {"all": ["pam-encoder-grid", "grid:combinations"]}
+
+def FZ(name, pkg, fuzz, fuzztime="120s", **kw):
+    d = {"name": name, "pkg": pkg, "run": "NONE", "fuzz": fuzz, "kind": "fuzz", "rapid": False, "tiers": ("thorough",),
+         "quick": {"shards": 1, "fuzztime": "10s"}, "thorough": {"shards": 1, "fuzztime": fuzztime, "timeout": 3600}}
+    d.update(kw)
+    return d
+
+CHECKS["C13"]["jobs"] += [FZ("fuzz-request", VSASL, "FuzzC13Request", "90s"), FZ("fuzz-response", VSASL, "FuzzC13Response", "90s")]
+CHECKS["C02"]["jobs"] += [FZ("fuzz-hashfile", VSTORE, "FuzzC02HashFile", "150s")]
+CHECKS["C07"]["jobs"] += [FZ("fuzz-check", AGENT, "FuzzC07Check", "120s", toolchain="go126")]
